@@ -115,6 +115,11 @@ func runProp(spec *PropSpec, tier, mutant string, noMut bool) (code int) {
 			if runErr != nil {
 				keys = append(keys, "ERROR:"+runErr.Error())
 			}
+			if os.Getenv("VERIF_MUTANT_VERBOSE") != "" {
+				for _, o := range c.Obls {
+					fmt.Printf("MUTANT-KEY %s\n", o.Key)
+				}
+			}
 			b, _ := json.Marshal(keys)
 			fmt.Printf("MUTANT-RESULT %s\n", b)
 			rules := map[string]int{}
